@@ -415,13 +415,14 @@ class Pipeline:
     def judge(self, wd, tp):
         return monitor(wd, self.mon[0], self.mon[1], tp, heap=self.heap, jvm=getattr(self, "jvm", ()))
 
-    def run(self, vh, wd, scenarios, seed):
-        """Returns (Verdict, verdict dict, TLCResult of the monitor, trace path)."""
-        tp = self.execute(vh, wd, scenarios, seed, "all")
+    def run(self, vh, wd, scenarios, seed, out=None, name="all", tags=None):
+        """Returns (Verdict, verdict dict, TLCResult of the monitor, trace path).
+        out: a Verdict to add to; tags: build tags of vh when not the default (kept in the replay file)."""
+        tp = self.execute(vh, wd, scenarios, seed, name)
         ini = inits(tp)
         verdict, vr = self.judge(wd, tp)
         log(f"[{self.prop}] V: {verdict['cnt']}")
-        out = Verdict(self.prop)
+        out = out or Verdict(self.prop)
         by_id = {s["id"]: s for s in scenarios}
         picked, per = [], {}
         seen = set()
@@ -441,7 +442,7 @@ class Pipeline:
                 s["orig"] = s.get("orig", sc)
                 s["id"] = n + 1
                 confirm.append((s, cls))
-            tp2 = self.execute(vh, wd, [c[0] for c in confirm], seed, "confirm")
+            tp2 = self.execute(vh, wd, [c[0] for c in confirm], seed, name + "-confirm")
             in2 = inits(tp2)
             v2, _ = self.judge(wd, tp2)
             again = {}
@@ -457,8 +458,11 @@ class Pipeline:
                 t2, i2 = again[(s["id"], cls)]
                 e = [e for e in events_of(tp2, t2) if e["i"] == i2][0]
                 what = self.describe(s, e) + " event=" + json.dumps({k: v for k, v in e.items() if k not in ("t",)})[:400]
-                out.flag(cls, what, {"property": self.prop, "scenario": s, "seed": seed, "class": cls},
-                         f"{cls.replace('@', '_').replace('/', '_')}-{s['orig']}-{s['id']}")
+                rp = {"property": self.prop, "scenario": s, "seed": seed, "class": cls}
+                if tags:
+                    rp["tags"] = list(tags)
+                    what = "build=" + ",".join(tags) + " " + what
+                out.flag(cls, what, rp, f"{cls.replace('@', '_').replace('/', '_')}-{s['orig']}-{s['id']}" + ("-" + tags[-1] if tags else ""))
             for s, cls in unreproduced:
                 log(f"[{self.prop}] flagged but not reproduced when run alone ({cls}): {json.dumps(s)[:300]}")
             if unreproduced and len(unreproduced) == len(confirm):
@@ -467,7 +471,7 @@ class Pipeline:
 
     def replay(self, path, seed):
         rp = json.load(open(path))
-        vh = build_vh()
+        vh = build_vh(tags=tuple(rp["tags"])) if rp.get("tags") else build_vh()
         wd = scratch()
         tp = self.execute(vh, wd, [rp["scenario"]], rp.get("seed", seed), "replay")
         print(open(tp).read()[:6000])
